@@ -113,6 +113,7 @@ proxy('gg', 2, 0, 2, 3, tiers=T_ONLY, timeout=3000)   # two proxies
 UNITS['isoproxy'] = dict(wrapper='w_isoproxy.cpp', mode='seq', cut=['advertise_new_work', '5arena7mailboxE'], prune=True, exceptions=True, cxxflags=CXX_MAIL)
 HARNESSES.append(dict(
     name='isoproxy_seq', unit='isoproxy', harness='h_isoproxy.c', defines={}, scenarios=[{'REUSE': r, 'DRAIN': d} for r in (0, 1) for d in (0, 1)],
+    scenarios_quick=[{'REUSE': 0, 'DRAIN': d} for d in (0, 1)],   # REUSE=1 (allocator hands the freed block out again): 100-115 s, thorough only
     tiers=['quick', 'thorough'], timeout=900, cbmc=['--unwind', '4', '--external-sat-solver', 'kissat'], native_cflags=NATIVE,   # spin loops never iterate sequentially; unwinding assertions prove the bound
     desc='sequential history on the real code: pool [P (affinity proxy, tag A), X (tag B)], T0 taken through the mailbox, owner get_task under isolation A '
          '(X omitted, empty proxy met and freed), owner mails a new task (allocator may reuse the freed block: REUSE), drain by owner (DRAIN=0) or thief + owner '
